@@ -82,7 +82,7 @@ TZDATA = ["UTC", "US/Eastern", "Asia/Kolkata", "Australia/Lord_Howe", "Pacific/C
           "Pacific/Apia", "America/Sao_Paulo"]
 
 EPOCH = datetime.datetime(1970, 1, 1)
-OP_DEADLINE_S = 10
+OP_DEADLINE_S = 5
 MINDT = datetime.datetime(1900, 1, 1)
 MAXDT = datetime.datetime(2200, 12, 31)
 
@@ -598,18 +598,29 @@ def execute_under(arg):
     if not arg.get("keep_stdout"):
         seams.silence_stdio()
     seams.set_tz(tz)
+    # import-time state of the library must be computed under this zone, as it
+    # would be in a process started with TZ in its environment
+    from ..util import reimport_labella
+
+    reimport_labella()
     clock = seams.SimClock(plan["clock"]["start"], plan["clock"]["tick_s"])
     seams.install_clock(clock)
     stats = {}
     outcomes = []
+    timed_out = False
     for i, op in enumerate(plan["ops"]):
         all_dts = []
+        if timed_out:
+            # one hang per run is enough: the rest is not executed
+            outcomes.append(["skipped_after_timeout"])
+            continue
         try:
             with seams.op_deadline(OP_DEADLINE_S):
                 res = _exec_op(op, stats, all_dts)
             out = ["ok", _canon_nofold(res)]
         except seams.SimTimeout:
             out = ["timeout"]
+            timed_out = True
         except HarnessError:
             raise
         except Exception as e:
